@@ -29,6 +29,15 @@ CHECKS["C05"] = dict(
     technique="SMT translation validation of constructor simplifications (z3 NRA) + CrossHair on index-merge utilities",
     design="§4 C05", engine="E1")
 
+CHECKS["C10"] = dict(
+    level="translation_validation",
+    text="expand_indices, remove_component_tensors and renumber_indices are run on hand-seeded hygiene skeletons "
+         "(same Index object bound in nested scopes, variables, zeros with free indices) and on VERIF_SEED-driven "
+         "grammar samples over a 3-index pool; z3 proves the output denotes the same value under lexical index "
+         "scoping for all field values; shape/free indices compared directly.",
+    technique="SMT translation validation of index-rewriting passes (z3 NRA) on bounded index-notation skeletons",
+    design="§4 C10", engine="E1")
+
 NOT_APPLICABLE = {
     "C11": "Signature injectivity is injectivity of string renderings (repr/str, numpy array printing, float "
            "formatting) composed with sha512: CrossHair cannot confirm it, z3/cvc5 string theories answer unknown, "
